@@ -73,6 +73,29 @@ Theorem C33_hrr_section_no_panic : forall is_golang psk exts cookie_len r p, hrr
 Proof. exact hrr_utls_section_no_panic. Qed.
 Print Assumptions C33_hrr_section_no_panic.
 
+(* whatever a compressed stream inflates to, decompressCert asks the decompressor for at most declared + 1 bytes
+   (io.ReadFull into the pre-sized buffer, then the one-byte probe): a decompression bomb is never materialised *)
+Theorem C33_decompress_pulled_bound : forall adv alg ulen open_ok, ulen < 16777216 ->
+  decompress_pulled_max true adv alg ulen open_ok <= maxHandshakeCertificateMsg + 1.
+Proof. exact decompress_pulled_bound. Qed.
+Print Assumptions C33_decompress_pulled_bound.
+
+(* establishHandshakeKeys: for every group and every server share length the slice expressions are in bounds *)
+Theorem C33_key_share_slices_no_panic : forall group data p, establish_share_slices group data <> Panic p.
+Proof. exact establish_share_slices_no_panic. Qed.
+Print Assumptions C33_key_share_slices_no_panic.
+
+(* Read holds the input lock while it handles HelloRequests; handleRenegotiation takes only handshakeMutex: however many
+   HelloRequests arrive, the goroutine never waits for a lock it holds itself *)
+Theorem C33_read_no_self_deadlock : forall n, lock_run [] (ops_read n) = Ok [].
+Proof. exact read_no_self_deadlock. Qed.
+Print Assumptions C33_read_no_self_deadlock.
+(* ... whereas delegating to Handshake() from inside Read would *)
+Example C33_ex_reneg_via_handshake_deadlocks : lock_run [] ([Acq L_in] ++ ops_handshake_context ++ [Rel L_in]) = Err E_SELF_DEADLOCK.
+Proof. vm_compute. reflexivity. Qed.
+Example C33_ex_kyber_short_share : establish_share_slices X25519Kyber768Draft00 [1; 2; 3] = Err a_illegal_parameter.
+Proof. vm_compute. reflexivity. Qed.
+
 (* the two uTLS message types are accepted only where they belong *)
 Theorem C33_ee_only_at_ee : forall rp cc, cdispatch rp cc T_encryptedExtensions = true -> rp = CRP_EncryptedExtensions.
 Proof. exact client_ee_only_at_ee. Qed.
